@@ -162,8 +162,9 @@ def _run_one(key):
                 out["violations"].append({"case": conc, "detail": rp.get("detail"), "lifted_matches": rp["lifted_matches"]})
                 if len(out["violations"]) >= 3:
                     break
-        # validate a sample of passing paths against the unmodified library (all in thorough)
-        every = ob.validate_every or (1 if tier == "thorough" else 0)
+        # validate a sample of passing paths against the unmodified library (quick: 3 per obligation; thorough: up to 150)
+        # thorough: every passing path is replayed up to 150 per obligation, beyond that an even stride over the paths
+        every = ob.validate_every or (max(1, -(-len(ok_paths) // 150)) if tier == "thorough" else 0)
         if every:
             sample = ok_paths[::every]
         else:
